@@ -838,6 +838,43 @@ def preference_ambiguous(node) -> bool:
     return amb[0]
 
 
+def backref_engine_dependent(node) -> bool:
+    """a back-reference to a group that sits inside a quantified body which can match the empty string:
+    whether a last, empty iteration may overwrite the capture is engine lore (Perl/Python: yes, ECMAScript: no),
+    and it changes even the language; the specifications are silent -> no verdict at all"""
+    risky = set()
+    refs = set()
+
+    def groups_in(n, acc):
+        t = n[0]
+        if t == 'grp':
+            acc.add(n[1])
+            groups_in(n[2], acc)
+        elif t in ('seq', 'alt'):
+            for x in n[1]:
+                groups_in(x, acc)
+        elif t in ('rep', 'ncg'):
+            groups_in(n[1], acc)
+
+    def walk(n):
+        t = n[0]
+        if t in ('seq', 'alt'):
+            for x in n[1]:
+                walk(x)
+        elif t == 'rep':
+            if n[3] != 0 and nullable(n[1]):
+                groups_in(n[1], risky)
+            walk(n[1])
+        elif t == 'ncg':
+            walk(n[1])
+        elif t == 'grp':
+            walk(n[2])
+        elif t == 'ref':
+            refs.add(n[1])
+    walk(node)
+    return bool(risky & refs)
+
+
 # --------------------------------------------------------------------------
 # self test (worked examples of XSD Part 2 App. G and F&O 5.6)
 # --------------------------------------------------------------------------
@@ -951,3 +988,4 @@ def self_test():
     assert preference_ambiguous(parse('(a*)*').node) and not preference_ambiguous(parse('(a*)b+').node)
     assert preference_ambiguous(parse('(?:a??)?').node) and not preference_ambiguous(parse('(?:a|b)?').node)
     assert preference_ambiguous(parse('(?:(a)|b)\\1').node) and not preference_ambiguous(parse('(a)\\1').node)
+    assert backref_engine_dependent(parse('(a*)+b\\1').node) and not backref_engine_dependent(parse('(a+)+b\\1').node)
